@@ -91,91 +91,96 @@ def run(P: Program, R: Report, tier: str) -> None:
     ]
     R.not_decided += ["pixel equality of the result (runtime values)"]
     f = P.func_named("relabel_segmentation")
-    rets = [s for s in ast.walk(f.node) if isinstance(s, ast.Return) and isinstance(s.value, ast.Name)]
-    if not rets:
-        raise AnalysisError("relabel_segmentation: no named array is returned")
-    dest = rets[-1].value.id
-    zdef = [s for s in ast.walk(f.node) if isinstance(s, ast.Assign) and norm(s.targets[0]) == dest]
-    fresh = [z for z in zdef if "zeros_like(" in norm(z.value) or "np.zeros(" in norm(z.value)]
-    R.check(len(zdef) == 1 and len(fresh) == 1, "R13.1", f, zdef[0] if zdef else f.node, f"the returned array `{dest}` is created zero-filled (fresh destination)",
-            f"`{dest}` is defined by `{norm(zdef[0].value)[:80] if zdef else '?'}`: labels that are not rewritten survive and rewrites can chain", via="fresh-destination")
-    if not fresh:
-        return
-    src = None
-    for c in ast.walk(fresh[0].value):
-        if isinstance(c, ast.Call) and call_name(c) == "zeros_like" and c.args and isinstance(c.args[0], ast.Name):
-            src = c.args[0].id
-    if src is None:
-        R.undecided("R13.1", f, fresh[0], "the source array is the argument of zeros_like", "shape not recognised")
-        return
-    fr = Frames(P, f, dest, src)
-    n_w = 0
-    for g in fr.funcs:
-        for s in ast.walk(g.node):
-            tgts = s.targets if isinstance(s, ast.Assign) else ([s.target] if isinstance(s, ast.AugAssign) else [])
-            for t in tgts:
-                if not isinstance(t, ast.Subscript):
-                    continue
-                base = fr.role(g, t.value)
-                if base is None or base[0] != "dest":
-                    if base is not None and base[0] == "src":
-                        R.fail("R13.1", g, s, "the source array is never written", f"`{norm(s)[:80]}` writes the source array")
-                    continue
-                n_w += 1
-                mask = t.slice
-                rs = Resolver(P, g)
-                mexp = rs.expand(mask)
-                reads = []
-                for tree in (mask, mexp):
-                    inner = {id(x.value) for x in ast.walk(tree) if isinstance(x, ast.Subscript)}
-                    reads += [fr.role(g, x) for x in ast.walk(tree) if isinstance(x, (ast.Subscript, ast.Name)) and id(x) not in inner]
-                reads = [r for r in reads if r is not None]
-                bad = [r for r in reads if r[0] == "dest"]
-                R.check(not bad and bool(reads), "R13.1", g, s, f"{g.short}: a mask written into the destination is computed from the source array only",
-                        f"`{norm(s)[:90]}`: the mask reads " + ("the destination (already rewritten labels can be rewritten again)" if bad else "neither array"),
-                        via="provenance")
-                for r in reads:
-                    if r[0] == "src":
-                        R.check(r[1][:1] == base[1][:1] and len(base[1]) >= 1, "R13.2", g, s, f"{g.short}: the frame read and the frame written are the same time point",
-                                f"reads frame {r[1][:1]} of the source, writes frame {base[1][:1]} of the destination", via="provenance")
-                if isinstance(s, ast.AugAssign):
-                    R.fail("R13.1", g, s, "the destination is only assigned, never updated in place from its own content", norm(s)[:80])
-        # reads of the destination other than as a store base / call argument / return value
-        for n in ast.walk(g.node):
-            if isinstance(n, ast.Name) and isinstance(n.ctx, ast.Load) and fr.roles.get((g.qname, n.id), ("", []))[0] == "dest":
-                ok = False
-                for s in ast.walk(g.node):
-                    if isinstance(s, ast.Return) and s.value is n:
-                        ok = True
-                    if isinstance(s, ast.Assign):
-                        for t in s.targets:
-                            x = t
-                            while isinstance(x, ast.Subscript):
-                                x = x.value
-                            if x is n and isinstance(t, ast.Subscript):
+
+    def fresh_destination_rules():
+        f = P.func_named("relabel_segmentation")
+        rets = [s for s in ast.walk(f.node) if isinstance(s, ast.Return) and isinstance(s.value, ast.Name)]
+        if not rets:
+            raise AnalysisError("relabel_segmentation: no named array is returned")
+        dest = rets[-1].value.id
+        zdef = [s for s in ast.walk(f.node) if isinstance(s, ast.Assign) and norm(s.targets[0]) == dest]
+        fresh = [z for z in zdef if "zeros_like(" in norm(z.value) or "np.zeros(" in norm(z.value)]
+        R.check(len(zdef) == 1 and len(fresh) == 1, "R13.1", f, zdef[0] if zdef else f.node, f"the returned array `{dest}` is created zero-filled (fresh destination)",
+                f"`{dest}` is defined by `{norm(zdef[0].value)[:80] if zdef else '?'}`: labels that are not rewritten survive and rewrites can chain", via="fresh-destination")
+        if not fresh:
+            return
+        src = None
+        for c in ast.walk(fresh[0].value):
+            if isinstance(c, ast.Call) and call_name(c) == "zeros_like" and c.args and isinstance(c.args[0], ast.Name):
+                src = c.args[0].id
+        if src is None:
+            R.undecided("R13.1", f, fresh[0], "the source array is the argument of zeros_like", "shape not recognised")
+            return
+        fr = Frames(P, f, dest, src)
+        n_w = 0
+        for g in fr.funcs:
+            for s in ast.walk(g.node):
+                tgts = s.targets if isinstance(s, ast.Assign) else ([s.target] if isinstance(s, ast.AugAssign) else [])
+                for t in tgts:
+                    if not isinstance(t, ast.Subscript):
+                        continue
+                    base = fr.role(g, t.value)
+                    if base is None or base[0] != "dest":
+                        if base is not None and base[0] == "src":
+                            R.fail("R13.1", g, s, "the source array is never written", f"`{norm(s)[:80]}` writes the source array")
+                        continue
+                    n_w += 1
+                    mask = t.slice
+                    rs = Resolver(P, g)
+                    mexp = rs.expand(mask)
+                    reads = []
+                    for tree in (mask, mexp):
+                        inner = {id(x.value) for x in ast.walk(tree) if isinstance(x, ast.Subscript)}
+                        reads += [fr.role(g, x) for x in ast.walk(tree) if isinstance(x, (ast.Subscript, ast.Name)) and id(x) not in inner]
+                    reads = [r for r in reads if r is not None]
+                    bad = [r for r in reads if r[0] == "dest"]
+                    R.check(not bad and bool(reads), "R13.1", g, s, f"{g.short}: a mask written into the destination is computed from the source array only",
+                            f"`{norm(s)[:90]}`: the mask reads " + ("the destination (already rewritten labels can be rewritten again)" if bad else "neither array"),
+                            via="provenance")
+                    for r in reads:
+                        if r[0] == "src":
+                            R.check(r[1][:1] == base[1][:1] and len(base[1]) >= 1, "R13.2", g, s, f"{g.short}: the frame read and the frame written are the same time point",
+                                    f"reads frame {r[1][:1]} of the source, writes frame {base[1][:1]} of the destination", via="provenance")
+                    if isinstance(s, ast.AugAssign):
+                        R.fail("R13.1", g, s, "the destination is only assigned, never updated in place from its own content", norm(s)[:80])
+            # reads of the destination other than as a store base / call argument / return value
+            for n in ast.walk(g.node):
+                if isinstance(n, ast.Name) and isinstance(n.ctx, ast.Load) and fr.roles.get((g.qname, n.id), ("", []))[0] == "dest":
+                    ok = False
+                    for s in ast.walk(g.node):
+                        if isinstance(s, ast.Return) and s.value is n:
+                            ok = True
+                        if isinstance(s, ast.Assign):
+                            for t in s.targets:
+                                x = t
+                                while isinstance(x, ast.Subscript):
+                                    x = x.value
+                                if x is n and isinstance(t, ast.Subscript):
+                                    ok = True
+                            if isinstance(s.targets[0], ast.Name) and (s.value is n or (isinstance(s.value, ast.Subscript) and root_and_index(s.value)[0] == n.id)) and fr.roles.get((g.qname, s.targets[0].id), ("", []))[0] == "dest":
                                 ok = True
-                        if isinstance(s.targets[0], ast.Name) and (s.value is n or (isinstance(s.value, ast.Subscript) and root_and_index(s.value)[0] == n.id)) and fr.roles.get((g.qname, s.targets[0].id), ("", []))[0] == "dest":
-                            ok = True
-                    if isinstance(s, ast.Call) and any((a is n) or (isinstance(a, ast.Subscript) and any(y is n for y in ast.walk(a))) for a in list(s.args) + [k.value for k in s.keywords]):
-                        q = P.resolve_name(g.module, s.func.id) if isinstance(s.func, ast.Name) else None
-                        if q in P.functions and P.functions[q] in fr.funcs:
-                            ok = True
-                R.check(ok, "R13.1", g, n, f"{g.short}: the destination is only written, handed on or returned - never read",
-                        f"`{n.id}` is read at line {n.lineno}", via="fresh-destination")
-    R.floor("R13.1", "mask writes", n_w, 1)
-    # time points come from the nodes' time values, one boolean mask selects from both id arrays
-    loops = [lp for lp in ast.walk(f.node) if isinstance(lp, ast.For) and "time_values" in norm(lp.iter)]
-    R.check(len(loops) == 1, "R13.2", f, loops[0] if loops else f.node, "relabel_segmentation loops over the time points of the nodes", "", via="syntax")
-    for lp in loops:
-        tv = lp.target.id if isinstance(lp.target, ast.Name) else "?"
-        masks = [s for s in ast.walk(lp) if isinstance(s, ast.Assign) and norm(s.value) == f"time_values == {tv}"]
-        if len(masks) != 1:
-            R.undecided("R13.2", f, lp, "one boolean time mask selects the nodes of the time point", "shape not recognised")
-            continue
-        m = norm(masks[0].targets[0])
-        used = {norm(x.value) for x in ast.walk(lp) if isinstance(x, ast.Subscript) and norm(x.slice) == m}
-        R.check({"seg_ids", "node_ids"} <= used, "R13.2", f, lp, "one boolean time mask selects from both the seg-id and the node-id array",
-                f"arrays selected with `{m}`: {sorted(used)}", via="provenance")
+                        if isinstance(s, ast.Call) and any((a is n) or (isinstance(a, ast.Subscript) and any(y is n for y in ast.walk(a))) for a in list(s.args) + [k.value for k in s.keywords]):
+                            q = P.resolve_name(g.module, s.func.id) if isinstance(s.func, ast.Name) else None
+                            if q in P.functions and P.functions[q] in fr.funcs:
+                                ok = True
+                    R.check(ok, "R13.1", g, n, f"{g.short}: the destination is only written, handed on or returned - never read",
+                            f"`{n.id}` is read at line {n.lineno}", via="fresh-destination")
+        R.floor("R13.1", "mask writes", n_w, 1)
+        # time points come from the nodes' time values, one boolean mask selects from both id arrays
+        loops = [lp for lp in ast.walk(f.node) if isinstance(lp, ast.For) and "time_values" in norm(lp.iter)]
+        R.check(len(loops) == 1, "R13.2", f, loops[0] if loops else f.node, "relabel_segmentation loops over the time points of the nodes", "", via="syntax")
+        for lp in loops:
+            tv = lp.target.id if isinstance(lp.target, ast.Name) else "?"
+            masks = [s for s in ast.walk(lp) if isinstance(s, ast.Assign) and norm(s.value) == f"time_values == {tv}"]
+            if len(masks) != 1:
+                R.undecided("R13.2", f, lp, "one boolean time mask selects the nodes of the time point", "shape not recognised")
+                continue
+            m = norm(masks[0].targets[0])
+            used = {norm(x.value) for x in ast.walk(lp) if isinstance(x, ast.Subscript) and norm(x.slice) == m}
+            R.check({"seg_ids", "node_ids"} <= used, "R13.2", f, lp, "one boolean time mask selects from both the seg-id and the node-id array",
+                    f"arrays selected with `{m}`: {sorted(used)}", via="provenance")
+
+    fresh_destination_rules()
     # ---- R13.3 joint offset
     rs = Resolver(P, f)
     ifs = [i for i in ast.walk(f.node) if isinstance(i, ast.If) and "0 in node_ids" in rs.text(i.test)]
@@ -216,3 +221,47 @@ def run(P: Program, R: Report, tier: str) -> None:
     defs = {n: hr.text(ast.Name(n, ast.Load())) for n in ("node_ids", "seg_ids")}
     R.check("node_ids" in defs["node_ids"] and ("seg_id" in defs["seg_ids"] or "SEG_KEY" in defs["seg_ids"]), "R13.4", h, h.node,
             "the compared arrays are the loaded node ids and seg ids", str(defs), via="provenance")
+    # ---- R13.5 each frame is relabelled with a mapping built for THAT frame only
+    frame_local_lookup(P, R, P.func_named("relabel_segmentation"), "R13.5")
+
+
+def frame_local_lookup(P: Program, R: Report, f: FuncInfo, rule: str) -> None:
+    """Label values may repeat across frames (per-frame labelling).  Whatever table translates seg ids to node ids
+    inside the frame loop therefore has to be created inside the iteration: a table created before the loop and only
+    filled per frame still holds the entries of earlier frames, and a label that is unlisted in this frame but was
+    listed in an earlier one is painted with the earlier node's id instead of becoming background."""
+    rets = {norm(r.value) for r in ast.walk(f.node) if isinstance(r, ast.Return) and r.value is not None}
+    loops = [lp for lp in f.node.body if isinstance(lp, ast.For)] or [lp for lp in ast.walk(f.node) if isinstance(lp, ast.For)]
+    n = 0
+    for lp in loops:
+        inplace: dict[str, ast.AST] = {}
+        rebound: set[str] = set()
+        for s in ast.walk(lp):
+            if isinstance(s, (ast.Assign, ast.AugAssign)):
+                for t in (s.targets if isinstance(s, ast.Assign) else [s.target]):
+                    if isinstance(t, ast.Subscript):
+                        r0 = t
+                        while isinstance(r0, ast.Subscript):
+                            r0 = r0.value
+                        if isinstance(r0, ast.Name):
+                            inplace.setdefault(r0.id, s)
+                    elif isinstance(t, ast.Name) and isinstance(s, ast.Assign):
+                        rebound.add(t.id)
+                    elif isinstance(t, ast.Tuple):
+                        rebound |= {x.id for x in t.elts if isinstance(x, ast.Name)}
+            if isinstance(s, ast.Call) and isinstance(s.func, ast.Attribute) and isinstance(s.func.value, ast.Name) and s.func.attr in ("update", "setdefault", "append", "extend", "add", "__setitem__"):
+                inplace.setdefault(s.func.value.id, s)
+        for name, site in sorted(inplace.items()):
+            if name in rets or name in rebound:
+                continue  # the destination array / a table made afresh in the iteration
+            # is it read inside the loop (used to produce this frame's output)?
+            reads = [x for x in ast.walk(lp) if isinstance(x, ast.Name) and x.id == name and isinstance(x.ctx, ast.Load)]
+            stores_only = all(any(x is (t.value if isinstance(t, ast.Subscript) else None) for s in ast.walk(lp) if isinstance(s, (ast.Assign, ast.AugAssign))
+                                  for t in (s.targets if isinstance(s, ast.Assign) else [s.target])) for x in reads)
+            n += 1
+            cleared = any(isinstance(c, ast.Call) and isinstance(c.func, ast.Attribute) and norm(c.func.value) == name and c.func.attr in ("clear", "fill") for c in ast.walk(lp))
+            R.check(stores_only or cleared, rule, f, site, f"{f.short}: `{name}` filled inside the frame loop is created (or emptied) inside the iteration",
+                    f"`{name}` is created before the loop, filled by `{norm(site)[:60]}` in every iteration and read in the same loop: entries of earlier frames survive, "
+                    "so a label that repeats in a later frame without a node there is painted with the earlier node's id", via="loop-carried-state")
+    if n == 0:
+        R.ok(rule, f, f.node, f"{f.short}: no table that outlives an iteration is filled inside the frame loop", via="loop-carried-state")
